@@ -301,6 +301,14 @@ func (r *lexRun) lb(v ssa.Value, st *lexState, depth int) int64 {
 			}
 		}
 		return negInf
+	case *ssa.Parameter:
+		// an integer parameter of a private helper: what every call site guarantees (bounds engine, §3.22)
+		if isIntType(x.Type()) && x.Parent() != nil && x.Parent().Pkg != nil {
+			if be, err := bndFor(r.e.c, x.Parent().Pkg.Pkg.Path(), r.e.recvType.Obj().Name()); err == nil {
+				return be.paramLB(x)
+			}
+		}
+		return negInf
 	case *ssa.UnOp:
 		if x.Op == token.MUL {
 			if lbv, ok := r.valLB[x]; ok {
